@@ -157,8 +157,7 @@ func (r *resolver) Resolve(ctx context.Context, vk resolve.VersionKey) (*resolve
 // important as the resolver does not always do a perfect job cleaning up
 // dependencies when it is forced to downgrade versions.
 func buildGraph(rc resolve.Client, root resolve.VersionKey, s *state) (*resolve.Graph, error) {
-	connected := make(map[resolve.VersionKey]bool, s.mapping.Len())
-	connected[root] = true
+	connected := connectedVersions(root, s)
 
 	g := &resolve.Graph{}
 	rootPackage := root.PackageKey
@@ -168,7 +167,7 @@ func buildGraph(rc resolve.Client, root resolve.VersionKey, s *state) (*resolve.
 
 	// Add all the nodes that can reach the root.
 	s.mapping.Iterate(func(p resolve.PackageKey, v resolve.VersionKey) {
-		if !hasRouteToRoot(rc, v, connected, s) {
+		if !connected[v] {
 			return
 		}
 		if _, ok := ids[p]; !ok {
@@ -217,44 +216,39 @@ func buildGraph(rc resolve.Client, root resolve.VersionKey, s *state) (*resolve.
 	return g, nil
 }
 
-func hasRouteToRoot(rc resolve.Client, v resolve.VersionKey, connected map[resolve.VersionKey]bool, s *state) bool {
-	if c, ok := connected[v]; c {
-		return true
-	} else if ok {
-		// It's been visited but not yet found to be connected, either
-		// because it isn't, or we've just recursed back to the start of
-		// a loop. In any case there's no additional paths to the route
-		// through here.
-		return false
+// connectedVersions returns the pinned versions that are required, directly or
+// transitively, by the root through pinned versions only. Connectivity is
+// propagated from the root until nothing changes, so that a version on a
+// dependency cycle is found from whichever of its parents leads to the root.
+func connectedVersions(root resolve.VersionKey, s *state) map[resolve.VersionKey]bool {
+	connected := make(map[resolve.VersionKey]bool, s.mapping.Len())
+	connected[root] = true
+	for changed := true; changed; {
+		changed = false
+		s.mapping.Iterate(func(p resolve.PackageKey, v resolve.VersionKey) {
+			if connected[v] {
+				return
+			}
+			crit, ok := s.criteria.Get(p)
+			if !ok {
+				// This should never happen, but if it does the
+				// version is certainly not connected to the root.
+				return
+			}
+			for _, parent := range crit.informationParents {
+				// Only the root and pinned versions are ever
+				// marked, so a parent that was never pinned, or
+				// that was replaced by a different version,
+				// gives no path to the root.
+				if connected[parent] {
+					connected[v] = true
+					changed = true
+					return
+				}
+			}
+		})
 	}
-	// Insert a false for now, to mark this version as visited.
-	connected[v] = false
-
-	p := v.PackageKey
-	crit, ok := s.criteria.Get(p)
-	if !ok {
-		// This should never happen, but if it does the version is
-		// certainly not connected to the root.
-		return false
-	}
-	for _, parent := range crit.informationParents {
-		if connected[parent] {
-			connected[v] = true
-			return true
-		}
-		parentPackage := parent.PackageKey
-		if pv, ok := s.mapping.Get(parentPackage); !ok || pv != parent {
-			// The parent was never pinned or a different version
-			// was pinned. Either way, there is definitely no path
-			// to the root through here.
-			continue
-		}
-		if hasRouteToRoot(rc, parent, connected, s) {
-			connected[v] = true
-			return true
-		}
-	}
-	return false
+	return connected
 }
 
 // provider is a wrapper around the resolve client, giving it an API that
